@@ -26,7 +26,7 @@ A character is its code (`char`: the `unsigned char` value 0…255; `wchar_t`: t
 -/
 namespace Fcppt.C15
 
-abbrev Ch := Nat
+scoped notation "Ch" => Nat
 
 /-- `ctype::is(space, c)` in the classic locale -/
 def isSpace (c : Ch) : Bool := c == 32 || (9 ≤ c && c ≤ 13)
@@ -103,14 +103,8 @@ structure NumRes where
   eof : Bool
   deriving DecidableEq, Repr
 
-/-- `num_get::_M_extract_int<T>` for the integer type `t` (`basefield == dec`, classic locale) -/
-def numGet (t : IntTy) (buf : List Ch) : NumRes :=
-  -- sign
-  let (negative, b1) : Bool × List Ch :=
-    match buf with
-    | 45 :: r => (true, r)
-    | 43 :: r => (false, r)
-    | _ => (false, buf)
+/-- `num_get::_M_extract_int<T>` behind the sign: leading zeros, digits, result (`basefield == dec`, classic locale) -/
+def numGetBody (t : IntTy) (negative : Bool) (b1 : List Ch) : NumRes :=
   -- leading zeros
   let foundZero := !(b1.takeWhile (· == 48)).isEmpty
   let b2 := b1.dropWhile (· == 48)
@@ -122,6 +116,12 @@ def numGet (t : IntTy) (buf : List Ch) : NumRes :=
   else
     let v : Int := if negative then (if t.signed then -(result : Int) else ((2 ^ t.bits - result) % 2 ^ t.bits : Nat)) else result
     { rest, value := v, fail := false, eof }
+
+/-- `num_get::_M_extract_int<T>` for the integer type `t`: `__negative = c == '-'`, a sign is skipped -/
+def numGet (t : IntTy) (buf : List Ch) : NumRes :=
+  let negative := buf.head? == some 45
+  let b1 := if negative || buf.head? == some 43 then buf.tail else buf
+  numGetBody t negative b1
 
 /-- `operator>>(istream&, T&)` for an integer type that is not a character type: `short` and `int` are read as
 `long` and range-checked afterwards, all other types go to `num_get` directly.  Returns the value stored. -/
